@@ -116,6 +116,11 @@ func (c *Config) Validate() error {
 	c.mu.RLock()
 	defer c.mu.RUnlock()
 
+	return c.validate()
+}
+
+// validate is Validate for callers that already hold c.mu
+func (c *Config) validate() error {
 	if c.Version <= 0 {
 		return fmt.Errorf("%w: invalid version %d", ErrInvalidConfig, c.Version)
 	}
@@ -208,7 +213,9 @@ func (c *Config) SaveManifest(dbPath string) error {
 	c.mu.RLock()
 	defer c.mu.RUnlock()
 
-	if err := c.Validate(); err != nil {
+	// c.mu is held: read-locking it again in Validate would deadlock with an
+	// Update waiting in between
+	if err := c.validate(); err != nil {
 		return err
 	}
 
